@@ -49,7 +49,7 @@ struct Obs {
 
 impl Obs {
     fn uname(&self, u: u8) -> String {
-        format!("{}{}", self.pre, ["ua", "ub", "uc"][(u % 3) as usize])
+        format!("{}{}", self.pre, ["ua", "ub ", "uc"][(u % 3) as usize])
     }
     fn pw(&self, p: usize, w: u8) -> String {
         match w % 4 {
